@@ -1038,7 +1038,12 @@ macro_rules! fd_call {
         #[no_mangle]
         pub unsafe extern "C" fn $name(fd: c_int) -> c_int {
             let real = real!($sym, unsafe extern "C" fn(c_int) -> c_int);
-            match prologue(|w| fd_desc(w, fd, $call, $class)) {
+            match prologue(|w| {
+                let mut d = fd_desc(w, fd, $call, $class)?;
+                // arg = 1 marks a descriptor on a directory (a flush of a directory is not a flush of a value)
+                d.arg = w.inner.lock().unwrap().fds.get(&fd).map(|i| i.is_dir as i64).unwrap_or(0);
+                Some(d)
+            }) {
                 Outcome::Pass => real(fd),
                 Outcome::Fail(w, d, idx, e) => {
                     epilogue(&w, d, idx, -1, e, true, None);
@@ -1483,6 +1488,39 @@ pub unsafe extern "C" fn renameat(da: c_int, a: *const c_char, db: c_int, b: *co
 }
 
 #[no_mangle]
+pub unsafe extern "C" fn renameat2(da: c_int, a: *const c_char, db: c_int, b: *const c_char, flags: libc::c_uint) -> c_int {
+    let real = real!("renameat2", unsafe extern "C" fn(c_int, *const c_char, c_int, *const c_char, libc::c_uint) -> c_int);
+    let (ra, rb) = (cs(a), cs(b));
+    match prologue(|w| {
+        let pa = resolve_at(w, da, &ra)?;
+        let pb = resolve_at(w, db, &rb)?;
+        if !w.relevant_path(&pa) && !w.relevant_path(&pb) {
+            return None;
+        }
+        let mut d = Desc::new("rename", Class::Path);
+        let (i, m) = lstat_ino(&pa);
+        d.ino = i;
+        d.arg = m as i64;
+        d.ino2 = lstat_ino(&pb).0;
+        d.path = pa;
+        d.path2 = pb;
+        Some(d)
+    }) {
+        Outcome::Pass => real(da, a, db, b, flags),
+        Outcome::Fail(w, d, idx, e) => {
+            epilogue(&w, d, idx, -1, e, true, None);
+            -1
+        }
+        Outcome::Go(w, d, idx) => {
+            let r = real(da, a, db, b, flags);
+            let e = errno();
+            epilogue(&w, d, idx, r as i64, e, false, None);
+            r
+        }
+    }
+}
+
+#[no_mangle]
 pub unsafe extern "C" fn linkat(da: c_int, a: *const c_char, db: c_int, b: *const c_char, flags: c_int) -> c_int {
     let real = real!("linkat", unsafe extern "C" fn(c_int, *const c_char, c_int, *const c_char, c_int) -> c_int);
     let (ra, rb) = (cs(a), cs(b));
@@ -1672,7 +1710,7 @@ pub unsafe extern "C" fn clock_gettime(clk: libc::clockid_t, ts: *mut libc::time
 /// Names of the libc entry points this module interposes (for the import audit).
 pub const INTERPOSED: &[&str] = &[
     "open64", "open", "openat64", "openat", "close", "read", "write", "lseek64", "lseek", "ftruncate64", "ftruncate",
-    "copy_file_range", "fsync", "fdatasync", "fchmod", "flock", "lockf", "fcntl", "fcntl64", "futimens", "utimensat",
+    "copy_file_range", "renameat2", "fsync", "fdatasync", "fchmod", "flock", "lockf", "fcntl", "fcntl64", "futimens", "utimensat",
     "statx", "chmod", "mkdir", "fchmodat", "unlink", "rmdir", "unlinkat", "rename", "renameat", "linkat", "link",
     "symlink", "opendir", "readdir64", "closedir", "clock_gettime", "sendfile64", "splice", "writev",
 ];
